@@ -279,8 +279,10 @@ pub fn build_case(t: &Target, f: &Field, job: &Job, mut src: Src, sweep: u64, do
             let keys = ["Aa", "Zz"];
             let mut d = Dictionary::new();
             let mut c = Dictionary::new();
-            for (i, v) in before.iter().chain(after.iter()).enumerate() { d.insert(keys[i], v.clone()); c.insert(keys[i], v.clone()); }
+            // the dangling value sits where the element would sit: before, between or after the valid entries (entry order is file order)
+            for (i, v) in before.iter().enumerate() { d.insert(keys[i], v.clone()); c.insert(keys[i], v.clone()); }
             d.insert(DNG_KEY, dref);
+            for (i, v) in after.iter().enumerate() { d.insert(keys[before.len() + i], v.clone()); c.insert(keys[before.len() + i], v.clone()); }
             (Primitive::Dictionary(d), Some(Primitive::Dictionary(c)))
         }
     };
